@@ -2,100 +2,11 @@
    estimates only decrease, hence after the first moment at which a node is back under its
    high threshold (or some headroom is used up) no later Evict call of the pass is on it. *)
 From Coq Require Import String List ZArith Bool Lia.
-From Verif Require Import C18.Model C18.Spec C18.Proofs_Pass C18.Proofs_Round C18.Proofs_Gate C18.Proofs_Check.
+From Verif Require Import C18.Model C18.Spec C18.Proofs_Vec C18.Proofs_Pass C18.Proofs_Round C18.Proofs_Gate C18.Proofs_Check.
 Import ListNotations.
 Open Scope Z_scope.
 
-(* ---------------------------------------------------------------- dimensions *)
-Lemma vmap2_length f : forall a b, length a = length b -> length (vmap2 f a b) = length a.
-Proof.
-  induction a as [|x a IH]; intros [|y b] H; cbn in *; try discriminate; [reflexivity|].
-  f_equal. apply IH. lia.
-Qed.
-
-Lemma proj_length {A} (m : list bool) : forall (v : list A), length m = length v ->
-  length (proj m v) = length (filter (fun b => b) m).
-Proof.
-  induction m as [|b m IH]; intros [|x v] H; cbn in *; try discriminate; [reflexivity|].
-  destruct b; cbn [length]; [f_equal|]; apply IH; lia.
-Qed.
-
-Lemma active_length c : length (active c) = 3%nat.
-Proof.
-  unfold active. destruct (cthr c) as [|a [|b [|d [|e t]]]]; reflexivity.
-Qed.
-
-Lemma proj3_length c (v : list Z) : length v = 3%nat -> length (proj (active c) v) = dims c.
-Proof. intros H. unfold dims. apply proj_length. rewrite active_length, H. reflexivity. Qed.
-
-Definition row_dims (d : nat) (r : row) : Prop :=
-  length (ruse r) = d /\ length (rpuse r) = d /\ length (rhigh r) = d /\ length (rphigh r) = d.
-Definition tbl_dims (d : nat) (tbl : list row) : Prop := forall r, In r tbl -> row_dims d r.
-
-Lemma mk_row_dims c a p m : row_dims (dims c) (mk_row c a p m).
-Proof.
-  unfold row_dims, mk_row. cbn [ruse rpuse rhigh rphigh].
-  repeat split; apply proj3_length; reflexivity.
-Qed.
-Lemma table_dims c ns rs : tbl_dims (dims c) (table c ns rs).
-Proof.
-  unfold table. intros r Hr. apply in_map_iff in Hr. destruct Hr as [m [<- _]]. apply mk_row_dims.
-Qed.
-
-Lemma vsum_length d l : (forall v, In v l -> length v = d) -> length (vsum d l) = d.
-Proof.
-  unfold vsum. assert (length (vzero d) = d) as H0 by apply repeat_length.
-  revert H0. generalize (vzero d). induction l as [|v l IH]; intros acc Ha Hl; cbn [fold_left]; [exact Ha|].
-  apply IH; [|intros w Hw; apply Hl; right; exact Hw].
-  unfold vadd. rewrite vmap2_length; [exact Ha|]. rewrite Ha. symmetry. apply Hl. left; reflexivity.
-Qed.
-
-Lemma headroom_length d prod r : row_dims d r -> length (headroom prod r) = d.
-Proof.
-  intros [H1 [H2 [H3 H4]]]. unfold headroom, vsub, r_high, r_use.
-  destruct prod; rewrite vmap2_length; congruence.
-Qed.
-
-Lemma node_avail_length d tbl : tbl_dims d tbl -> length (node_avail d tbl) = d.
-Proof.
-  intros H. unfold node_avail. apply vsum_length. intros v Hv. apply in_map_iff in Hv.
-  destruct Hv as [r [<- Hr]]. apply headroom_length. apply H. unfold node_targets in Hr.
-  apply in_app_or in Hr. destruct Hr as [Hr|Hr]; apply filter_In in Hr; apply Hr.
-Qed.
-
-Lemma prod_avail_length d tbl left : tbl_dims d tbl -> length left = d -> length (prod_avail d tbl left) = d.
-Proof.
-  intros H Hl. unfold prod_avail.
-  assert (forall k pr, length (vsum d (map (headroom pr) (filter (has_cls k) tbl))) = d) as Hs.
-  { intros k pr. apply vsum_length. intros v Hv. apply in_map_iff in Hv. destruct Hv as [r [<- Hr]].
-    apply headroom_length. apply H. apply filter_In in Hr. apply Hr. }
-  assert (forall f a b, length a = d -> length b = d -> length (vmap2 f a b) = d) as Hm
-    by (intros f a b Ha Hb; rewrite vmap2_length; congruence).
-  unfold vadd, vmin. apply Hm; [apply Hs|]. apply Hm; [apply Hs|]. apply Hm; [apply Hs|exact Hl].
-Qed.
-
 (* ---------------------------------------------------------------- monotone estimates *)
-Lemma uget_init prod tbl x :
-  uget x (init_umap prod tbl) = match find_row x tbl with Some r => r_use prod r | None => [] end.
-Proof.
-  unfold init_umap. induction tbl as [|a t IH]; cbn [map uget find_row]; [reflexivity|].
-  destruct (rid a =? x); [reflexivity|exact IH].
-Qed.
-
-Definition pods_nonneg (tbl : list row) : Prop :=
-  forall r p, In r tbl -> In p (rall r) -> 0 <= pcpu p /\ 0 <= pmem p.
-
-Lemma proj_Forall {A} (P : A -> Prop) (m : list bool) : forall v, Forall P v -> Forall P (proj m v).
-Proof.
-  induction m as [|b m IH]; intros v Hv; destruct v as [|x v]; cbn [proj]; try constructor.
-  inversion Hv; subst. destruct b; [constructor; [assumption|]|]; apply IH; assumption.
-Qed.
-
-Lemma pdec_props c p : 0 <= pcpu p -> 0 <= pmem p -> vnonneg (pdec c p) /\ length (pdec c p) = dims c.
-Proof.
-  intros H1 H2. unfold pdec. split; [|apply proj3_length; reflexivity].
-  apply proj_Forall. unfold pdec3. repeat constructor; lia.
-Qed.
 
 Definition st_dims (d : nat) (tbl : list row) (st : ustate) : Prop :=
   (forall r, In r tbl -> length (uget (rid r) (fst st)) = d) /\ length (snd st) = d.
@@ -123,7 +34,7 @@ Section Stop.
     valid_pass c tbl prod st evs st' -> st_dims (dims c) tbl st ->
     st_le st' st /\ st_dims (dims c) tbl st'.
   Proof.
-    induction 1 as [st|st x pv r p evs st' Hr Hc Ho Ht Ha Hp Hf Hv IH]; intros Hd.
+    induction 1 as [st|st x pv r p evs st' Hr Hc Ho Ht Ha Hp Hf Hfit Hv IH]; intros Hd.
     - split; [apply st_le_refl|exact Hd].
     - destruct (find_row_some _ _ _ Hr) as [Hin Hid]. subst x.
       destruct (find_pod_some _ _ _ Hp) as [Hpin _].
@@ -148,7 +59,7 @@ Section Stop.
   Proof.
     induction pre as [|e pre IH]; intros post st st' H; cbn [app] in H.
     - exists st. split; [constructor|exact H].
-    - inversion H as [|? x pv r p evs ? Hr Hc Ho Ht Ha Hp Hf Hv]; subst.
+    - inversion H as [|? x pv r p evs ? Hr Hc Ho Ht Ha Hp Hf Hfit Hv]; subst.
       destruct (IH post _ _ Hv) as [stm [H1 H2]].
       exists stm. split; [eapply vp_cons; eauto|exact H2].
   Qed.
